@@ -152,6 +152,14 @@ Definition open_keeps_lock : bool :=
   negb (existsb (fun c => String.eqb c "lock.Unlock" || String.eqb c "db.lock.Unlock") (calls (lookup "Open"))) &&
   subseq ["createLockFile"; "backupNonsegmentFiles"; "openIndex"; "openDatalog"; "db.recover"] (calls (lookup "Open")).
 
+(* write-ahead order: Put appends to the log before it touches the index; Delete's index update and its
+   log record are inside one exclusive section; recovery moves the non-segment files aside before it
+   opens the index *)
+Definition write_ahead_ok : bool :=
+  subseq ["db.datalog.put"; "db.put"] (calls (lookup "DB_Put")) &&
+  subseq ["db.datalog.trackDel"; "db.datalog.del"] (calls (lookup "DB_del")) &&
+  subseq ["db.datalog.segmentsBySequenceID"; "it.next"; "db.put"] (calls (lookup "DB_recover")).
+
 Theorem shape_all_guarded : all_guarded = true. Proof. vm_compute. reflexivity. Qed.
 Theorem shape_lock_order : lock_order_ok = true. Proof. vm_compute. reflexivity. Qed.
 Theorem shape_single_region : single_region_ops = true. Proof. vm_compute. reflexivity. Qed.
@@ -162,4 +170,7 @@ Theorem shape_seal_syncs : seal_syncs = true. Proof. vm_compute. reflexivity. Qe
 Theorem shape_backup : backup_shape_ok = true. Proof. vm_compute. reflexivity. Qed.
 Theorem shape_results_copied : results_copied = true. Proof. vm_compute. reflexivity. Qed.
 Theorem shape_lockfile : lockfile_shape_ok = true. Proof. vm_compute. reflexivity. Qed.
+(* no function returns while still holding a lock that no deferred call releases *)
+Theorem shape_no_lock_leak : lock_leaks = []. Proof. reflexivity. Qed.
+Theorem shape_write_ahead : write_ahead_ok = true. Proof. vm_compute. reflexivity. Qed.
 Theorem shape_open_keeps_lock : open_keeps_lock = true. Proof. vm_compute. reflexivity. Qed.
